@@ -232,6 +232,9 @@ pub fn run(ctx: &Ctx) {
     run_regress(ctx, SUBS);
     drive_enum(ctx, &SUBS[0], ctx.n(1500, 600_000));
     drive_random(ctx, &SUBS[1], ctx.n(20_000, 10_000_000), 1600);
+    if !ctx.quick() && !ctx.failed() {
+        crate::fuzzing::drive_fuzz(ctx, "modules", 200000);
+    }
 }
 
 pub fn finish(ctx: &Ctx) -> i32 {
